@@ -49,7 +49,14 @@ type unitStat struct {
 	Verdict     string         `json:"verdict"`
 }
 
+type candSample struct {
+	unit  string
+	paths int
+	v     any
+}
+
 type report struct {
+	candSamples []candSample
 	spec     *CheckSpec
 	tier     string
 	seed     int
@@ -149,8 +156,8 @@ func (r *report) addUnit(o *unitOutcome) {
 			for k, n := range res.Models {
 				r.models[k] += n
 			}
-			if len(res.SamplePaths) > 0 && len(r.samples) < 12 {
-				r.samples = append(r.samples, map[string]any{"unit": u.Name, "params": res.Params, "paths": res.Paths, "example_inputs_per_path": res.SamplePaths})
+			if len(res.SamplePaths) > 0 {
+				r.candSamples = append(r.candSamples, candSample{u.Name, res.Paths, map[string]any{"unit": u.Name, "params": res.Params, "paths": res.Paths, "example_inputs_per_path": res.SamplePaths}})
 			}
 		}
 		for _, v := range res.Violations {
@@ -436,6 +443,15 @@ func (r *report) finish(wall float64, writeEvidence bool) int {
 		tot.SolverS += u.SolverS
 		tot.Steps += u.Steps
 		tot.Cases += u.Cases
+	}
+	// the largest explorations, at most three per unit
+	sort.SliceStable(r.candSamples, func(i, j int) bool { return r.candSamples[i].paths > r.candSamples[j].paths })
+	perUnit := map[string]int{}
+	for _, c := range r.candSamples {
+		if perUnit[c.unit] < 3 && len(samples) < 12 {
+			perUnit[c.unit]++
+			samples = append(samples, c.v)
+		}
 	}
 	samples = append(samples, r.samples...)
 	for _, p := range r.pend {
